@@ -302,3 +302,9 @@ def run(F, rep):
     # ------------------------------------------------------------------ H: analyser state is rebuilt for every model (clause shared with C12)
     import c12
     c12.rule_h1(F, rep, 'C05.H1', [st for st in c12.STATE if st[0] == 'Analyser::AnalyserImpl'])
+
+    # ------------------------------------------------------------------ A: flags gathered over loops
+    from engines import rule_accumulators
+    rule_accumulators(F, rep, 'C05.A1', lambda g: g.file.endswith('/analyser.cpp'), 2, 'analyser.cpp', 'e.g. whether some variable of integration is initialised / whether an equation has become external must not depend on which variable comes last')
+
+
